@@ -25,6 +25,8 @@ Event(ev) ==
                                 /\ (ev.fired <=> (Len(fired') > Len(fired)))
       [] ev.ev = "CbEmit" -> RlEmit(ev.e) /\ ev.md = <<ev.e>>
       [] ev.ev = "ConsumerDone" -> ConsumerDone(ev.e)
+      [] ev.ev = "ConsumerFail" -> ConsumerFail(ev.e)
+      [] ev.ev = "EmitRaised" -> EmitRaised(ev.e)
       [] ev.ev = "Release" -> RlRelease(ev.e) /\ rc'[ev.e] = ev.count
                               /\ (ev.fired <=> (Len(fired') > Len(fired)))
       [] ev.ev = "EmitDone" -> EmitDone(ev.e)
